@@ -1254,7 +1254,10 @@ class Executor:
             if self.call_depth >= self.client.inline_depth or self.stack.count(body["path"]) >= 2:
                 self.effect(st, "call", (lit(path),) + tuple(allargs), result=None, node=node, reason="inline bound")
                 return [(st, ("val", self.fresh("ret:" + path.rsplit("::", 1)[-1])))]
-            return self.run_body(body, allargs, st, gargs=(cal or {}).get("gargs"))
+            mark = next(self.counter)
+            n_before = len(st.eff)
+            res = self.run_body(body, allargs, st, gargs=(cal or {}).get("gargs"))
+            return [self._settle_returned_vec(s, o, mark, n_before) for s, o in res]
         # 5. unmodelled external call: recorded as an effect; fallible when the type says so
         self.unmodelled[path] = self.unmodelled.get(path, 0) + 1
         from .stdmodels import is_result_ty
@@ -1266,6 +1269,24 @@ class Executor:
             r = UNIT if t == "()" else ("app", "call:" + path, tuple(allargs))
         self.effect(st, "call", (lit(path),) + tuple(allargs), result=r, node=node)
         return [(st, ("val", r))]
+
+    def _settle_returned_vec(self, s, o, mark, n_before):
+        """a function that returns a vector it created and filled by straight-line push / extend calls returns those
+        contents: the object is replaced by the canonical term and the build calls leave the effect list"""
+        if o[0] != "val" or not isinstance(o[1], tuple) or o[1][:2] != ("obj", "Vec") or o[1][2] <= mark:
+            return (s, o)
+        obj = o[1]
+        span = s.eff[n_before:]
+        if _mentions_term([e for e in s.eff[:n_before]], obj) or _mentions_term(list(s.env.values()), obj) or _mentions_term(list(s.fields.values()), obj):
+            return (s, o)
+        built = seq_build(obj, span)
+        if built is None:
+            return (s, o)
+        keep = [e for e in span if not (e["k"] == "call" and len(e["args"]) > 1 and e["args"][1] == obj)]
+        if _mentions_term(keep, obj):
+            return (s, o)
+        s.eff[n_before:] = keep
+        return (s, ("val", built))
 
     def do_tracked(self, spec, node, st):
         kind = spec["kind"]
